@@ -1,24 +1,26 @@
 #!/bin/sh
-# thorough tier of the harnesses added or changed in rounds 8-10 (each with -only), one line per run
+# thorough tier of the harnesses added or changed in rounds 8-11 (each with -only), one line per run
 cd "$(dirname "$0")/.."
 mkdir -p out
 run() { id=$1; only=$2; s=$(date +%s); ./check $id thorough -only "$only" > out/$id.thorough_new.log 2>&1; rc=$?; echo "$id [$only] rc=$rc $(( $(date +%s)-s ))s $(grep -E '^OK|^VIOLATION|^INCONCLUSIVE' out/$id.thorough_new.log | head -2 | cut -c1-200 | tr '\n' '|')"; }
-run C01 'SemCancelAlone|SemDeadContext'
-run C05 'TTLSetRaces|RemoveAfterGetRace'
-run C12 'Wakeups'
-run C13 'Wakeups'
+run C01 'SemCancelAlone|SemDeadContext|SemRatioPerMap'
+run C05 'TTLSetRaces|RemoveAfterGetRace|ValuesIndependent'
+run C06 'GenIDConcurrent'
+run C08 'AlgebraIndependent'
+run C12 'Wakeups|QHistory'
 run C18 '.*'
-run C17 'KeyLock|Sem|ReMapConcurrent|SearchIndex|TinyWide'
-run C03 'TreeUpdateAtomic|TreeLargeScan|TreeConcurrent'
-run C09 'BlocksFromData'
-run C10 'StreamEqualsBuffer'
-run C20 'RTJsByte'
+run C20 'TokBase64|RTJsByte'
 run C19 'LongRuns'
-run C07 'CnStyleRoundTrip'
-run C02 'KeyLockMixed'
+run C09 'BlocksFromData'
+run C03 'TreeLargeScan'
+run C17 'KeyLock|Sem|ReMap|SearchIndex|XHashIndex'
+run C02 'KeyLockMixed|MultiLengths|GroupOrder'
+run C13 'Wakeups'
+run C07 'TimeRangesInZones'
 run C14 'DeadContext|MultiLineCancel|StopPlacement|StopInside'
-run C15 'MuxSaturated|MuxGroupSerial'
-run C16 'SessionEndsOnce'
-run C04 'TinyWide|LRUConcurrent|TwoSets'
+run C15 'MuxSaturated|MuxGroupRouting'
+run C15 'MuxGroupSerial'
+run C04 'TinyWide|LRUConcurrent|TwoSets|SameObjectResized'
 run C19 'VCodeHistory'
+run C01 'Sem(Exclusion|FIFO|Cancel|Keys|HoldersKeepEntry)'
 run C11 'Differential'
